@@ -94,3 +94,43 @@ def declare(S: Spec):
          modifies=[], allocates=True)
     S.fn(f"{MW}:WorkloadGenerator.generate_query_segment", owners=["C15"], returns=Ref("Segment"),
          requires=[], ensures=[("query-prototype", "Proto(result, 15, 35)")], modifies=[], allocates=True)
+
+
+def declare2(S: Spec):
+    """generate_pipelines: count and identifiers (the pipelines' inner structure is checked natively, bounded)"""
+    Prio = Enum("Priority")
+    S.cls("NdArray", {})
+    S.cls("WorkloadGenerator", {"priority_values": List(INT), "priority_probs": Ref("NdArray")})
+    S.fn("ext:NpRng.choice", params={"a": List(INT), "p": Ref("NdArray")}, returns=INT, requires=["a is not None and len(a) > 0"],
+         ensures=["result in a"], modifies=[],
+         note="A-RNG: Generator.choice(a, p) returns an element of a (which one is not modelled)")
+    S.fns["ext:NpRng.choice"].trusted = True
+    IDS = "all(pipelines[j] is not None and pipelines[j].pipeline_id == fmt('p{}', BASE + j + 1) for j in range(0, len(pipelines)))"
+    SHAPE = "all(pipelines[j].values is not None and pipelines[j].values.node_ids is not None and len(pipelines[j].values.node_ids) >= 1 and implies(pipelines[j].priority == Priority.QUERY, len(pipelines[j].values.node_ids) == 1) for j in range(0, len(pipelines)))"
+    FRAME = ["seq(pipelines) == at_entry(seq(pipelines))", SHAPE, "self.pipeline_counter == at_entry(self.pipeline_counter)",
+             "self.rng is not None and self.priority_values is not None"]
+    S.fn(f"{MW}:WorkloadGenerator.generate_pipelines", owners=["C15"], returns=List(Ref("Pipeline")),
+         locals={"pipelines": List(Ref("Pipeline")), "priority": INT, "pipeline_id": STR, "p": Ref("Pipeline"), "op": Ref("Operator"),
+                 "seg": Ref("Segment"), "prev_op": Ref("Operator"), "prev_seg": Ref("Segment"), "curr_num_ops": INT, "curr_num_segs": INT},
+         requires=["self.rng is not None and self.priority_values is not None and len(self.priority_values) > 0",
+                   "all(any(v == m.value for m in Priority) for v in self.priority_values)", "self.num_pipelines >= 0"],
+         ensures=[("exactly-num-pipelines-per-event", "len(result) == self.num_pipelines"),
+                  ("identifiers-continue-the-counter", "self.pipeline_counter == old(self.pipeline_counter) + self.num_pipelines"
+                   " and all(result[j] is not None and result[j].pipeline_id == fmt('p{}', old(self.pipeline_counter) + j + 1) for j in range(0, len(result)))"),
+                  ("a-query-has-one-operator-any-pipeline-at-least-one",
+                   "all(result[j].values is not None and len(result[j].values.node_ids) >= 1"
+                   " and implies(result[j].priority == Priority.QUERY, len(result[j].values.node_ids) == 1) for j in range(0, len(result)))"),
+                  ("identifiers-are-fresh", "all(all(implies(i != j, result[i].pipeline_id != result[j].pipeline_id) for j in range(0, len(result))) for i in range(0, len(result)))")],
+         modifies=["self.pipeline_counter"], allocates=True,
+         loops={0: dict(idx="k", inv=["len(pipelines) == k", "k <= self.num_pipelines", "self.pipeline_counter == at_entry(self.pipeline_counter) + k",
+                                      IDS.replace("BASE", "at_entry(self.pipeline_counter)"),
+                                      SHAPE,
+                                      "self.rng is not None and self.priority_values is not None"]),
+                1: dict(idx="i", inv=FRAME + ["p is not None and p.values is not None and p.values.node_ids is not None and p.values.node_lookup is not None"
+                                              " and p.values.roots is not None and fresh(p) and fresh(p.values) and fresh(p.values.node_ids)"
+                                              " and fresh(p.values.node_lookup) and fresh(p.values.roots)",
+                                              "len(p.values.node_ids) == i and p.priority != Priority.QUERY and all(pp is not p for pp in pipelines)",
+                                              "implies(prev_op is not None, fresh(prev_op) and fresh(prev_op.children) and prev_op.children is not None"
+                                              " and prev_op.id is not None and prev_op.id in p.values.node_ids)"]),
+                2: dict(idx="jj", inv=FRAME + ["fresh(op) and fresh(op.values) and fresh(op.children)"])},
+         note="count and identifiers of one arrival event; the drawn priority, the number of operators and the prototypes are arbitrary here")
